@@ -54,6 +54,11 @@ fn inc_freq(k: u32) -> f32 {
 
 pub type Finding = (&'static str, &'static str, String);
 
+/// two readings at the same phase: the four exact shapes must be identical, the sine may differ by rounding
+pub fn same_outputs(a: &Shapes, b: &Shapes) -> bool {
+    a.tri == b.tri && a.up == b.up && a.down == b.down && a.sq == b.sq && (a.sine as f64 - b.sine as f64).abs() <= 4.0 * f32::EPSILON as f64
+}
+
 /// C10 oracle for one state
 pub fn c10_state(c: u32, s: &Shapes, out: &mut Vec<Finding>) {
     let p = c as f64 / M24 as f64;
@@ -210,7 +215,7 @@ impl Machine for LfoM {
                 c10_state(c1, &s1, &mut fnd);
                 // outputs depend on the phase only: compare with a fresh oscillator put at the same phase
                 let canon = read(&lfo_at(c1));
-                if canon != s1 {
+                if !same_outputs(&canon, &s1) {
                     fnd.push(("C10", "history-dependent", format!("outputs {:?} at phase {} differ from those of a fresh oscillator at the same phase {:?}", s1, c1, canon)));
                 }
                 match op {
@@ -467,7 +472,7 @@ pub fn c10(ctx: &Ctx) -> Report {
                         Ok(c) => {
                             let mut fnd: Vec<Finding> = Vec::new();
                             c10_state(c, &s, &mut fnd);
-                            if s != read(&lfo_at(c)) {
+                            if !same_outputs(&s, &read(&lfo_at(c))) {
                                 fnd.push(("C10", "history-dependent", format!("outputs {:?} at phase {} after a jump and return differ from those of an oscillator ticked straight there {:?}", s, c, read(&lfo_at(c)))));
                             }
                             if (c >> 14) == (a >> 14) {
@@ -576,7 +581,7 @@ pub fn c12(ctx: &Ctx) -> Report {
     incs.dedup();
     let stride = if ctx.tier.is_thorough() { Some(3) } else { Some(61) };
     for &k in &incs {
-        let full = ctx.tier.is_thorough() && matches!(k, 2 | 3 | 16383 | 16384 | 16385 | 32769 | 524289 | 1048577);
+        let full = ctx.tier.is_thorough();
         walk_all(ctx, &mut rep, k, false, true, false, if full { None } else { stride });
     }
     // start phases positioned with set_phase (not reached by ticking), then one tick at a small increment
@@ -619,7 +624,7 @@ pub fn c12(ctx: &Ctx) -> Report {
     rep.require_nonzero("pairs_starting_from_set_phase");
     rep.exhaustive = true;
     rep.sample(json!({"script": {"machine": "lfo", "config": {"fs": 1024.0}, "ops": ["freq:1023.99994", "tick", "freq:6.1035156e-5", "tick"]}, "meaning": "the step from the last phase of a cycle into the next cycle"}));
-    rep.assumptions.push("all 2^24 adjacent pairs at increment 1 in both tiers; ~85 larger increments (around every power of two and in between) from every 61st start phase (quick) / every 3rd (thorough), eight of them from every start phase in the thorough tier".into());
+    rep.assumptions.push("all 2^24 adjacent pairs at increment 1 in both tiers; ~85 larger increments (around every power of two and in between) from every 61st start phase (quick) / from every start phase (thorough)".into());
     rep
 }
 
@@ -864,7 +869,7 @@ fn set_phase_case(bits: u32, l: &mut Lfo, l2: &mut Lfo, lc: &mut LocalCounts, fn
     };
     if props.contains(&"C10") {
         c10_state(c, &s, fnd);
-        if s != read(&lfo_at(c)) {
+        if !same_outputs(&s, &read(&lfo_at(c))) {
             fnd.push(("C10", "history-dependent", format!("outputs {:?} after set_phase({:?}) differ from those of an oscillator ticked to the same phase {}", s, p, c)));
         }
     }
